@@ -38,6 +38,9 @@ type Env struct {
 	touched map[string]bool
 	lazy    func(name string) Term // if set, supplies heap versions not present in st
 	inOld   bool
+	// postAlloc: set when a postcondition is evaluated: allocated(x) then means "exists in the post-state"
+	// (a function that creates a column cannot promise that it existed at its own entry)
+	postAlloc Term
 	backing map[Term]Term // inside recursive spec bodies: slice parameter -> its backing-array parameter
 	recFuel Term          // inside recursive spec bodies: fuel passed to recursive calls
 	backingDeref map[Term]string
@@ -77,7 +80,7 @@ func (env *Env) lookupBacking(t Term) (Term, bool) {
 }
 
 func (env *Env) child() *Env {
-	return &Env{e: env.e, vars: map[string]TV{}, parent: env, st: env.st, old: env.old, pkg: env.pkg, alloc0: env.alloc0, depth: env.depth, touched: env.touched, lazy: env.lazy, inOld: env.inOld, pol: env.pol}
+	return &Env{e: env.e, vars: map[string]TV{}, parent: env, st: env.st, old: env.old, pkg: env.pkg, alloc0: env.alloc0, depth: env.depth, touched: env.touched, lazy: env.lazy, inOld: env.inOld, pol: env.pol, postAlloc: env.postAlloc}
 }
 
 func (env *Env) lookup(name string) (TV, bool) {
@@ -713,6 +716,17 @@ func (env *Env) callRecSpec(sf *SpecFunc, args []TV) TV {
 		}
 	}
 	for _, h := range info.heaps {
+		if h == "alloc0" {
+			switch {
+			case env.alloc0 == "alloc_formal":
+				ts = append(ts, env.heap("alloc0"))
+			case env.postAlloc != "" && !env.inOld:
+				ts = append(ts, env.postAlloc)
+			default:
+				ts = append(ts, env.alloc0)
+			}
+			continue
+		}
 		ts = append(ts, env.heap(h))
 	}
 	return TV{app(name, ts...), info.result}
@@ -932,9 +946,18 @@ func (env *Env) trCall(x *ECall) TV {
 		v := env.tr(x.Args[0])
 		var ids []Term
 		e.refIds(v.T, v.Ty, &ids, 0)
+		a0 := env.alloc0
+		if env.postAlloc != "" && !env.inOld {
+			a0 = env.postAlloc
+		}
+		if env.alloc0 == "alloc_formal" {
+			// inside the body of a recursive / opaque spec function: the caller's entry allocation counter is passed
+			// along like a heap parameter
+			a0 = env.heap("alloc0")
+		}
 		var cs []Term
 		for _, id := range ids {
-			cs = append(cs, app("<", id, env.alloc0))
+			cs = append(cs, app("<", id, a0))
 		}
 		return TV{and(cs...), tyBool}
 	case "has":
